@@ -31,24 +31,30 @@ Definition chk04 (c : case) : nat :=
 
 (* C03.  1: the part map after the operation is not the model's   2: the bytes returned by get_part differ
    3: the saved file read back independently is not the part map of the document at the time of saving
-   4: the saved file differs from the model's   5: abstraction broken   9: fidelity *)
+   4: the saved file differs from the model's   5: abstraction broken
+   6: a part held in memory would be replaced by the file's content at the next read (time-stamp bookkeeping)   9: fidelity *)
 Definition saved_matches (fs' : cfs) (d' : cdoc) (o : cop) : bool :=
   match is_save o, written fs' o with
   | Some (_, PXml, _), _ => true
-  | Some _, Some f =>
-      forallb (fun n => opt_eqb ccont_eqb (cfile_view (Some f) n) (cview fs' d' n))
+  | Some (_, _, pty), Some f =>
+      forallb (fun n => opt_eqb (if pty then ccont_eqb_loose else ccont_eqb) (cfile_view (Some f) n) (cview fs' d' n))
               (cnames fs' d' ++ map fst (file_entries cbytes Z (Some f)))
   | Some _, None => false
   | None, _ => true
   end.
+(* the manifest effect of del_part / add_file / import is C04's subject: not compared here *)
+Definition view_eqb_on (f : name -> bool) (fs1 : cfs) (d1 : cdoc) (fs2 : cfs) (d2 : cdoc) : bool :=
+  forallb (fun n => opt_eqb ccont_eqb (cview fs1 d1 n) (cview fs2 d2 n)) (filter f (cnames fs1 d1 ++ cnames fs2 d2)).
 Definition chk03 (c : case) : nat :=
   let '(fs, d, o, fs', d', r) := c in
   let '((fsm, dm), rm) := cstep FIXED (fs, d) o in
   if negb (cwfb fs' d') then 5
-  else if negb (view_eqb fs' d' fsm dm) then 1
+  else if negb (view_eqb_on (match o with ODelPart _ | OAddFile _ _ _ | OImport _ _ _ => fun n => negb (n =? MANIFEST) | _ => fun _ => true end)
+                            fs' d' fsm dm) then 1
   else if negb (out_eqb r rm) then 2
   else if match r with Done => negb (saved_matches fs' d' o) | _ => false end then 3
   else if negb (file_content_eqb (written fs' o) (written fsm o)) then 4
+  else if cts_invb fsm dm && negb (cts_invb fs' d') then 6
   else if doc_eqb d' dm && file_eqb (written fs' o) (written fsm o) then 0 else 9.
 (* which variant of the code does the implementation follow on this step? (diagnosis only) *)
 Definition agrees (fx : fixes) (c : case) : bool :=
